@@ -286,13 +286,19 @@ impl Iterator for BackoffStrategyIter {
             return None;
         }
 
+        // Delays that would overflow saturate at `Duration::MAX` (and are then clamped to the
+        // maximum duration below, if one is set) instead of panicking or wrapping around.
         let mut next_duration = match self.strategy_type {
-            Strategy::Linear => step * current_attempt,
+            Strategy::Linear => step.checked_mul(current_attempt).unwrap_or(Duration::MAX),
             Strategy::Constant => step,
-            Strategy::Exponential(factor) => step.mul_f64(factor.pow(current_attempt - 1) as f64),
+            Strategy::Exponential(factor) => scale_exponentially(step, factor, current_attempt - 1),
         };
 
-        self.current_attempt += 1;
+        // Once `max_attempts` is `u32::MAX` there is no next attempt number to move on to
+        match current_attempt.checked_add(1) {
+            Some(next_attempt) => self.current_attempt = next_attempt,
+            None => self.state.max_attempts = 0,
+        }
 
         if let Some(max) = max_duration {
             next_duration = next_duration.min(max);
@@ -305,6 +311,28 @@ impl Iterator for BackoffStrategyIter {
         };
 
         Some(next)
+    }
+}
+
+/// Computes `step * factor^exponent` in whole nanoseconds, saturating at `Duration::MAX`.
+fn scale_exponentially(step: Duration, factor: u64, exponent: u32) -> Duration {
+    const NANOS_PER_SEC: u128 = 1_000_000_000;
+
+    let nanos = step.as_nanos();
+    if nanos == 0 {
+        return Duration::ZERO;
+    }
+
+    let scaled = u128::from(factor)
+        .checked_pow(exponent)
+        .and_then(|multiplier| nanos.checked_mul(multiplier));
+
+    match scaled {
+        Some(nanos) => match u64::try_from(nanos / NANOS_PER_SEC) {
+            Ok(secs) => Duration::new(secs, (nanos % NANOS_PER_SEC) as u32),
+            Err(_) => Duration::MAX,
+        },
+        None => Duration::MAX,
     }
 }
 
